@@ -32,11 +32,11 @@ RULE = ('Inputs: small Hypothesis-drawn well-sorted scripts (typed generator, de
 ASSUMPTIONS = [
     'cycles longer than the depth bound or outside the explored subgraph are not excluded',
     'hang = more than 3 s CPU (not wall clock) in one mutator or apply call on an input of < 120 nodes',
-    'cycle buckets are keyed by the set of mutators on the cycle',
+    'cycle buckets are keyed by the set of mutators on the cycle when every input on the cycle is well-formed SMT-LIB (cvc5 --parse-only); cycles through ill-formed intermediate inputs form one coarse family (known finding)',
 ]
 
 CPU = 3.0
-MAX_STATES = {'quick': 40, 'thorough': 1200}
+MAX_STATES = {'quick': 40, 'thorough': 300}
 SEARCH = {'quick': dict(n=6, beam=5, depth=4), 'thorough': dict(n=16, beam=8, depth=6)}
 
 
@@ -116,8 +116,30 @@ def multiset_distance(a, b):
     return sum(((ca - cb) + (cb - ca)).values())
 
 
+def well_formed(text):
+    """cvc5 --parse-only accepts the text (None if cvc5 is unavailable)."""
+    import subprocess
+    lines = [ln for ln in text.split('\n') if not ln.startswith('(set-logic')]
+    try:
+        p = subprocess.run(['cvc5', '--parse-only', '--lang=smt2', '--strings-exp'],
+                           input='\n'.join(lines).encode(), capture_output=True, timeout=30)
+    except (FileNotFoundError, subprocess.TimeoutExpired):
+        return None
+    return p.returncode == 0 and b'(error' not in p.stdout + p.stderr
+
+
+def render_tokens(seq):
+    return ' '.join(seq)
+
+
 def report_cycle(acc, case, names, states, how):
-    key = 'cycle/' + '+'.join(sorted(set(names)))
+    texts = [render_tokens(s) for s in states]
+    if all(well_formed(t) for t in texts):
+        key = 'cycle/' + '+'.join(sorted(set(names)))
+    else:
+        # at least one input on the cycle is not well-formed SMT-LIB (or cvc5
+        # is unavailable): one coarse family, see DESIGN.md C03
+        key = 'cycle/on-ill-formed-input'
     path = ' -> '.join(f'[{n}] {" ".join(s)[:140]}' for n, s in zip(names, states))
     acc.violation(key, f'({how}) the proposal graph has a cycle of length {len(names)}: {path}', case)
 
@@ -268,7 +290,11 @@ def run_e2e(case, acc, wd):
         by = r.after.get('writes_by', [])
         names = [n for n in by[first + 1:len(log)] if n]
         n_steps = len(log) - 1 - first
-        if n_steps == 1:
+        texts = r.after.get('cycle_texts') or [None]
+        tidy = all(t is not None and well_formed(t) for t in texts)
+        if not tidy:
+            key = 'repeat-in-run/on-ill-formed-input'
+        elif n_steps == 1:
             key = 'repeat-in-run/noop/' + ('+'.join(sorted(set(names))) or '?')
         else:
             key = 'repeat-in-run/' + ('+'.join(sorted(set(names))) or '?')
@@ -293,7 +319,7 @@ def shard(ctx, acc):
     guard.limit_memory(4)
     env.set_options(dd, ['in.smt2', 'out.smt2', '/bin/true'])
     muts = all_mutators(dd)
-    total = 96 if ctx.quick else 3000
+    total = 96 if ctx.quick else 1600
 
     def body(case):
         nt, stats = run_inproc(dd, case, acc, ctx.tier, muts)
@@ -305,7 +331,7 @@ def shard(ctx, acc):
 
     runner.hyp_run(ctx, inproc_case(), body, ctx.share(total))
     n = [0]
-    total2 = 48 if ctx.quick else 1500
+    total2 = 48 if ctx.quick else 1200
 
     def body2(case):
         n[0] += 1
